@@ -26,7 +26,7 @@ PROPS = {
         explanation="Theorems: ring invariant over all call sequences, primary stability, refusal cases, rotation safety for every cluster size and interleaving; tie: differential run of the real Keyring against the model.",
     ),
     "C10": dict(
-        lean_modules=["Swim.Props.C10", "Swim.Props.C10Prefer", "Swim.Props.GenTie.Queue"],
+        lean_modules=["Swim.Props.C10", "Swim.Props.C10Prefer", "Swim.Props.GenTie.Queue", "Swim.Props.Scale"],
         tests="^TestC10$",
         rule=("random sequences of 1-40 QueueBroadcast (named incl. empty name / unique / plain with subjects; sizes 0-40 incl. equal) / "
               "GetBroadcasts (overhead -1..3, limit -5..1400) / Prune (-1..5) / Reset / NumQueued with changing NumNodes and RetransmitMult 0-8, "
@@ -180,7 +180,7 @@ PROPS = {
         engine="codec-harness",
     ),
     "C06": dict(
-        lean_modules=["Swim.Model.Susp", "Swim.Lemmas.Merge", "Swim.Props.C06", 'Swim.Gen.Facts', 'Swim.Props.C06Facts', 'Swim.Props.C06History', 'Swim.Model.Cluster', 'Swim.Props.Cluster', 'Swim.Props.Projection', 'Swim.Props.C06Cluster'],
+        lean_modules=["Swim.Model.Susp", "Swim.Lemmas.Merge", "Swim.Props.C06", 'Swim.Gen.Facts', 'Swim.Props.C06Facts', 'Swim.Props.C06History', 'Swim.Model.Cluster', 'Swim.Props.Cluster', 'Swim.Props.Projection', 'Swim.Props.C06Cluster', "Swim.Props.Scale"],
         tests="^TestC06$",
         rule=("(susp) timed confirmation scripts on the real suspicion timer in virtual time (testing/synctest): k in {0,1,2,3,4,6}, minimum timeouts "
               "incl. values that are not whole milliseconds, max = 1,2,6 x min, up to 8 confirmations from 7 names incl. the accuser and duplicates at "
@@ -289,7 +289,7 @@ PROPS = {
         engine="cluster-simulator",
     ),
     "C05": dict(
-        lean_modules=['Swim.Lemmas.Merge', 'Swim.Props.C02', 'Swim.Props.C09', 'Swim.Props.C05', 'Swim.Model.Cluster', 'Swim.Props.Cluster', 'Swim.Props.ClusterG', 'Swim.Props.C02Cluster', 'Swim.Props.C05Cluster', 'Swim.Props.Projection', 'Swim.Props.C04Cluster', 'Swim.Props.C05Recover', 'Swim.Props.C09Cluster', 'Swim.Props.C05Converge'],
+        lean_modules=['Swim.Lemmas.Merge', 'Swim.Props.C02', 'Swim.Props.C09', 'Swim.Props.C05', 'Swim.Model.Cluster', 'Swim.Props.Cluster', 'Swim.Props.ClusterG', 'Swim.Props.C02Cluster', 'Swim.Props.C05Cluster', 'Swim.Props.Projection', 'Swim.Props.C04Cluster', 'Swim.Props.C05Recover', 'Swim.Props.C09Cluster', 'Swim.Props.C05Converge', "Swim.Props.Scale"],
         tests="^TestC05(Cluster)?$",
         timeout_quick=400,
         shards_quick=4,
